@@ -329,7 +329,21 @@ def _loop_scenarios() -> list[Scenario]:
                 if len(adds) > asked:
                     out.append(self.viol(env, 'transformation-duplicated', f"the handler asked {asked} time(s) for finalizer {fin!r} to be added; the operator "
                                                                            f"added it at {adds} ({len(conflicts)} version conflict(s) on the way)", clause='exactly-once'))
-                if asked and not adds and not env.owes() and env.end_reason == 'horizon' and not self.carveouts(env):
+                carved = self.carveouts(env)
+                if self.params.get('variant') == 'user-fn-failing-cycle':
+                    # an up-front rejected request (500) changes nothing on the server: the failed cycle only postpones the delivery to the
+                    # next cycle - which needs an event that comes after the failure
+                    faulty = [r for r in env.world.requests if r.fault]
+                    killed = bool(env.counters.get('kills')) or any(k == 'kill' for _, k, _ in env.obs)
+                    last = max([r.t_responded or 0.0 for r in faulty], default=0.0)
+                    later_event = any(w['actor'] == 'user' and w['name'] == 'a' and w['t'] > last for w in env.world.writes)
+                    carved = killed or any(r.fault != '500' for r in faulty) or (bool(faulty) and not later_event)
+                    # the clause is about transformations carried after a version conflict: a failure of the FIRST delivery attempt (no
+                    # conflict before it) is outside of it (kopf drops the transformation there; noted in DESIGN.md, not judged)
+                    first_conflict = min([r.t_responded or 0.0 for r in conflicts], default=None)
+                    if any(first_conflict is None or (r.t_responded or 0.0) < first_conflict or r.rid < min(c.rid for c in conflicts) for r in faulty):
+                        carved = True
+                if asked and not adds and not env.owes() and env.end_reason == 'horizon' and not carved:
                     out.append(self.viol(env, 'transformation-lost', f"the handler asked for finalizer {fin!r}; it was never added", clause='exactly-once'))
             if not conflicts:
                 return out
@@ -367,6 +381,10 @@ def _loop_scenarios() -> list[Scenario]:
         out.append(CarryOverScenario(handlers=handlers, settings=st, horizon=40.0, variant='user-fn', user_fin='user/fin', lifecycle=lc,
                                      user=[(1.0, 'create', 'a'), (5.0, 'status', 'a', 1), (10.0, 'delfin', 'a', 'user/fin'), (14.0, 'status', 'a', 2),
                                            (16.0, 'spec', 'a', 2)]))
+        # ... and the cycle that is to deliver it fails as a whole (the server answers 500 to one of its requests): it stays carried
+        out.append(CarryOverScenario(handlers=handlers, settings=st, horizon=40.0, variant='user-fn-failing-cycle', user_fin='user/fin', lifecycle=lc,
+                                     faults=['500'], max_faults=1,
+                                     user=[(1.0, 'create', 'a'), (5.0, 'status', 'a', 1), (14.0, 'status', 'a', 2)]))
     return out
 
 
